@@ -38,6 +38,88 @@ def _single_return(f):
     return rets[0].value if len(rets) == 1 else None
 
 
+def throughput_pattern_rule(chk, rid, trk_mod):
+    """Task.THROUGHPUT_PATTERN, decided on the regex syntax tree (re._parser; nothing is matched): the pattern is exactly <value group> <one whitespace> <unit group> and the decimal
+    point with the fraction digits lies INSIDE the value group — shared with C10 (the loaded throughput target is the number written in the file)."""
+    TKc = trk_mod.cls("Task")
+    tpat = [n for n in TKc.body if isinstance(n, ast.Assign) and u(n.targets[0]) == "THROUGHPUT_PATTERN"]
+    # regex AST (re._parser): the pattern is exactly <value group> <one whitespace> <unit group>; the decimal point and the fraction digits are INSIDE the value group
+    ok = False
+    detail = ""
+    if tpat and isinstance(tpat[0].value, ast.Call) and tpat[0].value.args and isinstance(tpat[0].value.args[0], ast.Constant):
+        import re._parser as _rp  # the standard library's own regex parser; nothing is matched, the pattern's syntax tree is inspected
+        try:
+            tree = _rp.parse(tpat[0].value.args[0].value)
+            gi = tree.state.groupdict
+            items = list(tree)
+            names = {v: k for k, v in gi.items()}
+            top = [(str(op), names.get(av[0]) if str(op) == "SUBPATTERN" else None) for op, av in items]
+            shape = [t for t in top]
+            vgrp = next((av[3] for op, av in items if str(op) == "SUBPATTERN" and names.get(av[0]) == "value"), None)
+
+            def lits(sub):
+                out = set()
+                for op, av in sub:
+                    if str(op) == "LITERAL":
+                        out.add(chr(av))
+                    elif str(op) in ("SUBPATTERN",):
+                        out |= lits(av[3])
+                    elif str(op) in ("MAX_REPEAT", "MIN_REPEAT"):
+                        out |= lits(av[2])
+                    elif str(op) == "BRANCH":
+                        for alt in av[1]:
+                            out |= lits(alt)
+                return out
+
+            exact = [n for _, n in shape] == ["value", None, "unit"] and shape[1][0] == "IN"
+            ok = exact and vgrp is not None and "." in lits(vgrp)
+            detail = f"top-level sequence: {[n or o for o, n in shape]}; literals inside the value group: {sorted(lits(vgrp)) if vgrp is not None else None}" + \
+                ("" if ok else " — part of the number lies outside the value group: '2.5 docs/s' is read as 2, '0.5 ops/s' as 0 (unthrottled)")
+        except Exception as e:  # noqa: BLE001 - a pattern the parser rejects is reported, not a crash
+            detail = f"pattern not parseable: {e}"
+    chk.ob(rid, "throughput pattern == <value incl. fraction> <space> <unit>: nothing of the number outside the value group", ok, tpat[0] if tpat else TKc, detail,
+           key="esrally/track/track.py:Task.THROUGHPUT_PATTERN:value-group-covers-fraction")
+
+
+def parallel_defaults_rule(chk, rid, repo):
+    """TrackSpecificationReader.parse_parallel hands the iteration / time-period defaults written on the parallel element to parse_task under the parameter of the SAME meaning
+    (four ints: a swap type-checks and only shows when the two values differ)."""
+    ldr = repo.module("esrally/track/loader.py")
+    chk.use(ldr)
+    SR = ldr.cls("TrackSpecificationReader")
+    pp, pt = ldr.methods(SR).get("parse_parallel"), ldr.methods(SR).get("parse_task")
+    if pp is None or pt is None:
+        raise AnchorMissing("TrackSpecificationReader.parse_parallel / parse_task")
+    calls = [c for c in source.calls_in(pp) if u(c.func) == "self.parse_task"]
+    if not calls:
+        raise AnchorMissing("self.parse_task(...) in parse_parallel")
+    b = source.bind_args(calls[0], pt)
+    d = local_defs(pp)
+    for param, key in (("default_warmup_iterations", "warmup-iterations"), ("default_iterations", "iterations"), ("default_warmup_time_period", "warmup-time-period"), ("default_time_period", "time-period")):
+        e = b.get(param)
+        txt = source.inline(e, d) if e is not None else ""
+        import re as _re
+        keys = set(_re.findall(r"'([a-z-]+)'", txt)) & {"warmup-iterations", "iterations", "warmup-time-period", "time-period", "ramp-up-time-period"}
+        chk.ob(rid, f"parallel default '{key}' -> parse_task({param}=...)", keys == {key}, calls[0], f"{param} is read from key(s) {sorted(keys)}", key=f"esrally/track/loader.py:parse_parallel:default:{param}")
+
+
+def timer_before_rampup_rule(chk, rid, drv, why):
+    """The schedule's progress timer (it decides warm-up vs. normal and the end of a time period) starts, unconditionally, before the ramp-up wait of the client."""
+    ex = _prop(drv, drv.cls("AsyncExecutor"), "__call__")
+    ge = cfg_of(ex)
+    edefs = local_defs(ex)
+    sleeps = [n for n in walk_body(ex) if isinstance(n, ast.Await) and isinstance(n.value, ast.Call) and dotted(n.value.func) == "asyncio.sleep" and n.value.args
+              and "ramp_up_wait_time" in source.inline(n.value.args[0], edefs)]
+    starts = [n for n in walk_body(ex) if isinstance(n, ast.Call) and u(n.func) == "self.schedule_handle.start"]
+    loops_ = [n for n in walk_body(ex) if isinstance(n, ast.AsyncFor)]
+    if not sleeps or not starts or not loops_:
+        raise AnchorMissing("ramp-up sleep / schedule_handle.start() / request loop in AsyncExecutor.__call__")
+    sl, stt, lp = ge.node_of(sleeps[0]), ge.node_of(starts[0]), ge.node_of(loops_[0])
+    ok = ge.dominated_by_nodes(sl, [stt]) and not ge.path_exists(sl, stt) and not guards(starts[0])
+    chk.ob(rid, "progress timer started before the ramp-up wait", ok, starts[0], "" if ok else why)
+    return ex, ge, edefs, sleeps, starts, loops_, sl, stt, lp
+
+
 def partition_call_rule(chk, rid, drv):
     """schedule_for partitions the task's parameter source with (task-local client index, the TASK's client count) — shared with C03 (slices must tile the corpus)."""
     sfn = drv.func("schedule_for")
@@ -402,18 +484,7 @@ def run(chk):
     from rules.C02 import allocation_totals
 
     allocation_totals(chk, "O5.4", drv)
-    ex = _prop(drv, drv.cls("AsyncExecutor"), "__call__")
-    ge = cfg_of(ex)
-    edefs = local_defs(ex)
-    sleeps = [n for n in walk_body(ex) if isinstance(n, ast.Await) and isinstance(n.value, ast.Call) and dotted(n.value.func) == "asyncio.sleep" and n.value.args
-              and "ramp_up_wait_time" in source.inline(n.value.args[0], edefs)]
-    starts = [n for n in walk_body(ex) if isinstance(n, ast.Call) and u(n.func) == "self.schedule_handle.start"]
-    loops_ = [n for n in walk_body(ex) if isinstance(n, ast.AsyncFor)]
-    if not sleeps or not starts or not loops_:
-        raise AnchorMissing("ramp-up sleep / schedule_handle.start() / request loop in AsyncExecutor.__call__")
-    sl, stt, lp = ge.node_of(sleeps[0]), ge.node_of(starts[0]), ge.node_of(loops_[0])
-    ok = ge.dominated_by_nodes(sl, [stt]) and not ge.path_exists(sl, stt) and not guards(starts[0])
-    chk.ob("O5.4", "progress timer started before the ramp-up wait", ok, starts[0], "" if ok else "the warm-up / time period would start after the ramp-up delay: client i runs ramp*i/total too long")
+    ex, ge, edefs, sleeps, starts, loops_, sl, stt, lp = timer_before_rampup_rule(chk, "O5.4", drv, "the warm-up / time period would start after the ramp-up delay: client i runs ramp*i/total too long")
     ok = not ge.path_exists(lp, sl) and len(starts) == 1
     chk.ob("O5.4", "ramp-up wait before the main loop", ok, sleeps[0], "")
     gs = [source.inline_node(f_, edefs) for f_ in pat.fact_nodes(sleeps[0])]
@@ -507,42 +578,7 @@ def run(chk):
     tpat = [n for n in TKc.body if isinstance(n, ast.Assign) and u(n.targets[0]) == "THROUGHPUT_PATTERN"]
     ok = bool(tpat) and isinstance(tpat[0].value, ast.Call) and bool(tpat[0].value.args) and isinstance(tpat[0].value.args[0], ast.Constant) and "(?P<value>" in tpat[0].value.args[0].value and "(?P<unit>" in tpat[0].value.args[0].value and "/s" in tpat[0].value.args[0].value
     chk.ob("O5.6", "string form parsed with named groups value / unit (unit ends in /s)", ok, tpat[0] if tpat else TKc, "")
-    # regex AST (re._parser): the pattern is exactly <value group> <one whitespace> <unit group>; the decimal point and the fraction digits are INSIDE the value group
-    ok = False
-    detail = ""
-    if tpat and isinstance(tpat[0].value, ast.Call) and tpat[0].value.args and isinstance(tpat[0].value.args[0], ast.Constant):
-        import re._parser as _rp  # the standard library's own regex parser; nothing is matched, the pattern's syntax tree is inspected
-        try:
-            tree = _rp.parse(tpat[0].value.args[0].value)
-            gi = tree.state.groupdict
-            items = list(tree)
-            names = {v: k for k, v in gi.items()}
-            top = [(str(op), names.get(av[0]) if str(op) == "SUBPATTERN" else None) for op, av in items]
-            shape = [t for t in top]
-            vgrp = next((av[3] for op, av in items if str(op) == "SUBPATTERN" and names.get(av[0]) == "value"), None)
-
-            def lits(sub):
-                out = set()
-                for op, av in sub:
-                    if str(op) == "LITERAL":
-                        out.add(chr(av))
-                    elif str(op) in ("SUBPATTERN",):
-                        out |= lits(av[3])
-                    elif str(op) in ("MAX_REPEAT", "MIN_REPEAT"):
-                        out |= lits(av[2])
-                    elif str(op) == "BRANCH":
-                        for alt in av[1]:
-                            out |= lits(alt)
-                return out
-
-            exact = [n for _, n in shape] == ["value", None, "unit"] and shape[1][0] == "IN"
-            ok = exact and vgrp is not None and "." in lits(vgrp)
-            detail = f"top-level sequence: {[n or o for o, n in shape]}; literals inside the value group: {sorted(lits(vgrp)) if vgrp is not None else None}" + \
-                ("" if ok else " — part of the number lies outside the value group: '2.5 docs/s' is read as 2, '0.5 ops/s' as 0 (unthrottled)")
-        except Exception as e:  # noqa: BLE001 - a pattern the parser rejects is reported, not a crash
-            detail = f"pattern not parseable: {e}"
-    chk.ob("O5.6", "throughput pattern == <value incl. fraction> <space> <unit>: nothing of the number outside the value group", ok, tpat[0] if tpat else TKc, detail,
-           key="esrally/track/track.py:Task.THROUGHPUT_PATTERN:value-group-covers-fraction")
+    throughput_pattern_rule(chk, "O5.6", repo_trk)
     reads = {source.inline(v_, {}) for v_ in tdefs.values()}
     ok = IVX in reads and TVX in reads
     chk.ob("O5.6", "read from the keys target-throughput / target-interval", ok, tt, "")
@@ -644,6 +680,10 @@ def run(chk):
     chk.ob("O5.5", "the chosen loop control is handed to the schedule handle", ok, shc[0] if shc else sfn, "")
     # params partitioned with the task-local client index
     partition_call_rule(chk, "O5.5", drv)
+    from rules.C01 import complete_read_exemption_rule
+
+    complete_read_exemption_rule(chk, "O5.5", drv)
+    parallel_defaults_rule(chk, "O5.5", repo)
 
 
 from sa.selftest import V  # noqa: E402
